@@ -52,6 +52,9 @@ pub struct SpendSpec {
     /// that occur nowhere else (1: 4-byte atoms, 2: 33-byte atoms, 3: the puzzle is a pair of
     /// two such atoms), so the spend shares nothing with the rest of the generator. Such a
     /// spend does not run, so it never has a truthful cost; the builders do not run it either.
+    /// 4: the puzzle is a unique atom and the solution *quotes the bundle*: it is the list
+    /// (t_{k-1} ... t_1) of the (parent puzzle amount solution) tuples of the spends before it in
+    /// its own bundle, most recent first — the very list cells a builder creates for them.
     #[serde(default)]
     pub opaque: u8,
 }
@@ -188,6 +191,7 @@ fn solution_bytes(sp: &SpendSpec) -> Vec<u8> {
 fn build_bundle(b: &BundleSpec) -> SpendBundle {
     let v = vocab();
     let mut spends = vec![];
+    let mut so_far: Vec<([u8; 32], Vec<u8>, u64, Vec<u8>)> = vec![];
     for (i, sp) in b.spends.iter().enumerate() {
         let parent = sha(&[b"parent", &sp.parent_seed.to_le_bytes()]);
         let (mut puzzle, mut solution, ph): (Vec<u8>, Vec<u8>, [u8; 32]) = if sp.opaque != 0 {
@@ -208,7 +212,29 @@ fn build_bundle(b: &BundleSpec) -> SpendBundle {
             } else {
                 p1
             };
-            let so = a.new_atom(&atom(b"s")).unwrap();
+            let mut so = a.new_atom(&atom(b"s")).unwrap();
+            if sp.opaque == 4 {
+                // quote the spends before this one (if their bytes decode)
+                let mut l = a.nil();
+                let mut ok = true;
+                for (par, puz, am, sol) in &so_far {
+                    let (Ok(pzn), Ok(son)) = (node_from_bytes_backrefs(&mut a, puz), node_from_bytes_backrefs(&mut a, sol)) else {
+                        ok = false;
+                        break;
+                    };
+                    let nil = a.nil();
+                    let t = a.new_pair(son, nil).unwrap();
+                    let amn = a.new_number((*am).into()).unwrap();
+                    let t = a.new_pair(amn, t).unwrap();
+                    let t = a.new_pair(pzn, t).unwrap();
+                    let parn = a.new_atom(par).unwrap();
+                    let t = a.new_pair(parn, t).unwrap();
+                    l = a.new_pair(t, l).unwrap();
+                }
+                if ok && !so_far.is_empty() {
+                    so = l;
+                }
+            }
             let p = node_to_bytes(&a, pz).unwrap();
             let ph = clvm_utils::tree_hash_from_bytes(&p).map(|h| h.to_bytes()).unwrap_or([0u8; 32]);
             (p, node_to_bytes(&a, so).unwrap(), ph)
@@ -237,6 +263,7 @@ fn build_bundle(b: &BundleSpec) -> SpendBundle {
             }
             _ => {}
         }
+        so_far.push((parent, puzzle.clone(), sp.amount, solution.clone()));
         spends.push(CoinSpend::new(coin, Program::from(puzzle), Program::from(solution)));
     }
     SpendBundle::new(spends, v.sigs[b.sig as usize % v.sigs.len()].clone())
@@ -873,7 +900,9 @@ impl Engine for C10 {
                             conds: vec![],
                             quoted: false,
                             backrefs: false,
-                            opaque: 1 + rng.below(3) as u8,
+                            // in the histories made of opaque spends only, a spend that follows
+                            // others in its bundle quotes them one time in three
+                            opaque: if opaque_only && !spends.is_empty() && rng.chance(1, 3) { 4 } else { 1 + rng.below(3) as u8 },
                         });
                         continue;
                     }
